@@ -97,6 +97,18 @@ def deliverBreak (cs : List Cache) (e : REv) : List Cache :=
   | some (u, n) => globBreak u n cs
   | none => cs
 
+/-! ### one listener at a time (a listener may lag behind the others by whole events) -/
+
+def modifyAt (f : Cache → Cache) : Nat → List Cache → List Cache
+  | _, [] => []
+  | 0, c :: t => f c :: t
+  | i + 1, c :: t => c :: modifyAt f i t
+
+/-- ONE listener processes event `e`: role 0 = the scheduler-wide handler (its loop touches every cache),
+    role i ≥ 1 = the plugin handler of profile i (its own cache only) -/
+def deliverTo (cs : List Cache) (e : REv) (role : Nat) : List Cache :=
+  if role == 0 then cs.map (fun c => globEv c e) else modifyAt (fun c => plugEv c e) (role - 1) cs
+
 /-! ### driver helpers -/
 
 /-- position of role `x` in the delivery order (length if absent) -/
